@@ -16,6 +16,7 @@ import (
 	clmodel "github.com/osmosis-labs/osmosis/v31/x/concentrated-liquidity/model"
 	cltypes "github.com/osmosis-labs/osmosis/v31/x/concentrated-liquidity/types"
 	"github.com/osmosis-labs/osmosis/v31/x/gamm/pool-models/balancer"
+	"github.com/osmosis-labs/osmosis/v31/x/gamm/pool-models/stableswap"
 	gammtypes "github.com/osmosis-labs/osmosis/v31/x/gamm/types"
 	pmtypes "github.com/osmosis-labs/osmosis/v31/x/poolmanager/types"
 	twaptypes "github.com/osmosis-labs/osmosis/v31/x/twap/types"
@@ -151,9 +152,31 @@ func TestPropTwap(t *testing.T) {
 			}
 			pools = append(pools, &pool{id: c.App.PoolManagerKeeper.GetNextPoolId(c.Ctx) - 1, denoms: denoms})
 		}
+		// a stableswap pool (2 or 3 assets, generated scaling factors): another spot-price formula behind the same records
+		mkStable := func(denoms []string) {
+			var liq sdk.Coins
+			var sf []uint64
+			for _, d := range denoms {
+				liq = liq.Add(coin(d, rapid.Int64Range(1_000_000, 1_000_000_000_000).Draw(rt, "stableLiq"+d)))
+				sf = append(sf, []uint64{1, 1, 10, 1000}[rapid.IntRange(0, 3).Draw(rt, "scaling"+d)])
+			}
+			msg := stableswap.NewMsgCreateStableswapPool(chain.Actor(0), stableswap.PoolParams{SwapFee: osmomath.NewDecWithPrec(rapid.Int64Range(0, 100).Draw(rt, "stableFeeBp"), 4), ExitFee: osmomath.ZeroDec()}, liq, sf, "")
+			if r := c.Exec(&msg); !r.OK() {
+				rt.Fatalf("harness: create stableswap pool: %v", r.Err)
+			}
+			sorted := append([]string{}, denoms...)
+			sort.Strings(sorted)
+			pools = append(pools, &pool{id: c.App.PoolManagerKeeper.GetNextPoolId(c.Ctx) - 1, denoms: sorted})
+			cs.Class("stableswap-pool")
+		}
 		mkPool([]string{"aaa", "bbb", "bbb2"})
-		if rapid.Bool().Draw(rt, "secondPool") {
+		switch rapid.IntRange(0, 3).Draw(rt, "secondPool") {
+		case 1:
 			mkPool([]string{"aaa", "uosmo"})
+		case 2:
+			mkStable([]string{"aaa", "uosmo"})
+		case 3:
+			mkStable([]string{"bbb", "bbb2", "uosmo"})
 		}
 		var clPool *pool
 		clChanged := false
